@@ -8,6 +8,7 @@ require (
 	github.com/gorilla/mux v1.8.1
 	github.com/mattn/go-sqlite3 v1.14.26
 	github.com/transparency-dev/merkle v0.0.2
+	golang.org/x/crypto v0.36.0
 	google.golang.org/grpc v1.71.1
 )
 
@@ -15,7 +16,6 @@ require (
 	github.com/go-logr/logr v1.4.2 // indirect
 	github.com/golang/mock v1.6.0 // indirect
 	github.com/google/btree v1.1.3 // indirect
-	golang.org/x/crypto v0.36.0 // indirect
 	golang.org/x/net v0.38.0 // indirect
 	golang.org/x/sys v0.31.0 // indirect
 	golang.org/x/text v0.23.0 // indirect
